@@ -121,6 +121,8 @@ Definition b_values (f : bytes) (b : backend) : bytes * backend * bres :=
 
 Inductive bop :=
 | BeginW (i : nat) | EndW (i : nat) | BeginR (i : nat) | EndR (i : nat)
+| EndWX (i : nat) | EndRX (i : nat)   (* the with-block ends by an exception of its own: the same finalisers run (flush, close, idle, lock
+                                         released) and an exception propagates -- the body's, or the flush's if that fails too *)
 | CPut (i : nat) (k v : bytes) | CGet (i : nat) (k : bytes) | CKeys (i : nat) | CFlush (i : nat)
 | CContains (i : nat) (k : bytes)     (* k in c, k in c._backend *)
 | CLen (i : nat)                      (* len(c), c.n_items, len(c._backend) *)
@@ -139,6 +141,8 @@ Definition bstep (w : bworld) (o : bop) : bworld * bres :=
   | EndW i => on i b_end_w
   | BeginR i => on i b_begin_r
   | EndR i => on i b_end_r
+  | EndWX i => on i (fun f b => let '(f', b', _) := b_end_w f b in (f', b', BErr BAttr))
+  | EndRX i => on i (fun f b => let '(f', b', _) := b_end_r f b in (f', b', BErr BAttr))
   | CPut i k v => on i (fun f b => b_put f b k v)
   | CGet i k => on i (fun f b => b_get f b k)
   | CKeys i => ((f, bs), BKeys (bkeys (nth i bs b0)))
